@@ -74,6 +74,7 @@ CHECKS = {
         runs=[
             dict(name="sched", run="^TestC01Exclusion$", checks=(20000, 120000), shards=(4, 16)),
             dict(name="stress", run="^TestC01Stress$", checks=(1000, 8000), shards=(2, 4)),
+            dict(name="failedserve", run="^TestC01AcrossFailedServe$", checks=(300, 3000), shards=(1, 1)),
         ],
     ),
     "C02": dict(
